@@ -30,6 +30,11 @@ fn skip_vs_read(mode: u8, data: &[u8], ctx: Ctx, j: usize, variant: u8, obs: &[i
     let rd = in_ctx(ctx, rd);
     let r = run_slice(mode, &rd, data);
     if obs.first() == Some(&3) { return Oracle::Fail("panic".into()) }
+    // independent of the library's own reader: a skipping program that ends with "read all" succeeds at
+    // the top level only on input that is a sequence of well-formed values (reference parser)
+    if ctx == Ctx::Top && obs.first() == Some(&0) {
+        match ref_parse_seq(mode, data, Ctx::Top, 0) { Some((_, used)) if used == data.len() => {}, _ => return Oracle::Fail("skipping-accepts-malformed-input".into()) }
+    }
     if r.first() != obs.first() { return Oracle::Fail("skip-and-read-disagree-on-acceptance".into()) }
     if r.first() == Some(&0) && r[1] != obs[1] { return Oracle::Fail("skip-and-read-advance-differently".into()) }
     if variant == 3 {
